@@ -597,6 +597,31 @@ func genClient(repo, out string) error {
 	fmt.Fprintf(&b, "def progSenderLoopCond : String := %s\n", leanStr(loopCond))
 	fmt.Fprintf(&b, "def progSenderSelects : Nat := %d\n", sndSelects)
 	fmt.Fprintf(&b, "def progSenderCancelModes : List String := %s\n", leanStrList(sndModes))
+	// how the sender reads `progress` from the options sendProg returned
+	okAsserts, allAsserts := 0, 0
+	ast.Inspect(sender.Body, func(n ast.Node) bool {
+		switch x := n.(type) {
+		case *ast.AssignStmt:
+			if len(x.Lhs) == 2 && len(x.Rhs) == 1 {
+				if ta, ok := x.Rhs[0].(*ast.TypeAssertExpr); ok && exprText(cpFset, ta.X) == "cliOptions[wamp.OptProgress]" {
+					okAsserts++
+				}
+			}
+		case *ast.TypeAssertExpr:
+			if exprText(cpFset, x.X) == "cliOptions[wamp.OptProgress]" {
+				allAsserts++
+			}
+		}
+		return true
+	})
+	progAssert := "none"
+	switch {
+	case allAsserts > 0 && okAsserts == allAsserts:
+		progAssert = "comma-ok"
+	case allAsserts > 0:
+		progAssert = "bare"
+	}
+	fmt.Fprintf(&b, "/-- How the sender reads `cliOptions[wamp.OptProgress]`: comma-ok (unset = last chunk) or bare (unset panics). -/\ndef progSenderProgressAssert : String := %s\n", leanStr(progAssert))
 	kmVal, err := wampStringConst(repo, "CancelModeKillNoWait")
 	if err != nil {
 		return err
